@@ -1,4 +1,4 @@
-(* Tie theorems for the ept_map REQUEST side of _epm.py (build_tcpip_tower, EptMap.pack / unpack) against Model/Epm.v;
+(* Part 1 of 2 (build_tcpip_tower, EptMap.unpack).  Tie theorems for the ept_map REQUEST side of _epm.py (build_tcpip_tower, EptMap.pack / unpack) against Model/Epm.v;
    conventions as in Proofs/Flow_rpc_pdu.v and Flow_rpc_bind.v (fuel of the floor loop). Listed under C12 only. *)
 From V Require Import Prelude.Base Prelude.PyInt Prelude.PySlice Prelude.PyStr Prelude.PyAst Prelude.PyWorld gen.F_rpc.
 From V Require Import Model.Pdu Model.Request Model.RpcLoop Model.Bind Model.Verification Model.Epm Flow.World_rpc Proofs.Flow_rpc_lib.
@@ -42,16 +42,6 @@ Proof.
     [ destruct HL as [env' [He (Hv & Ht & H1 & H2 & H3)]]; [norm_in Hne; congruence|]; cbn [fst snd] in *;
       rewrite He; unfold vfloors in *; tie; rewrite ?floors_of_inj; try reflexivity
     | rewrite HL by (norm_in Hne; congruence); tie ].
-Qed.
-
-
-Lemma flow_eptmap_pack mf fuel m :
-  run (W mf) fuel k_flow_eptmap_pack [VO (OEptMap m)] = chk (ept_map_ranges m) (ept_map_pack m).
-Proof.
-  unfold ept_map_pack, tower_bytes, entry_handle_pack, ept_map_ranges, handle_ranges, chk, k_flow_eptmap_pack, k_eptmap_pack_pad.
-  destruct m as [ob fs eh mt]. hide_comps.
-  destruct eh as [[a u]|]; destruct ob as [u'|].
-  all: tie. all: comp_step OFloor floor_ranges floor_pack; tie.
 Qed.
 
 Lemma flow_eptmap_unpack_total mf mfuel fuel data : len data < Z.of_nat mfuel ->
